@@ -126,6 +126,10 @@ def cause_of(data, err, off, src, kind, strict=False):
     m = re.search(rb'(xlink:href|href|src)=$', data[max(0, q - 12):q]) if q > 0 else None
     if m and b'"' not in data[q + 1:off]:
         return 'url-attribute-unescaped:%s' % m.group(1).decode()
+    if kind in ('image-alt', 'image-title', 'figure', 'link-attr', 'fenced-lang') and msg in ('mismatched tag', 'not well-formed (invalid token)'):
+        # the HTML writer copies these attribute texts as typed (recorded): a '<' stops the parser inside the value ("invalid token"), a '">' ends the
+        # tag early and the parser stops at the next closing tag instead ("mismatched tag") -- one cause, one key
+        return 'escaping:not-well-formed-(invalid-token):%s' % kind
     return 'escaping:%s:%s' % (msg.replace(' ', '-'), kind)
 
 
